@@ -91,6 +91,12 @@ def length(fl, rf, N, arrays):
 
 
 def run(ix, R):
+    _run(ix, R)
+    from rules.common import memo_obligation
+    memo_obligation(ix, R, 'M.memo', ['taurex/data/profiles/chemistry/'], 'the chemistry and gas profiles')
+
+
+def _run(ix, R):
     # ---- 1. validity check dominates the fill
     site = TC + '::TaurexChemistry.initialize_chemistry'
     with R.guard('1.valid', 'DOM', site, 'validity'):
@@ -188,17 +194,34 @@ def run(ix, R):
         rets = fl.of('return')
         single = [r for r in rets if r.guards and r.guards[-1].positive and not r.guards[-1].early]
         why = []
-        s = one(single, 'single-gas return')
-        if not fl.tab.equal(s.guards[-1].rf, spec(fl, 'len(self._fill_gases) == 1')) or \
-                not fl.tab.equal(s.value, fl.tab.atom('tuple', (pe['rem'],))):
-            why.append('single fill gas: %s under %s' % (fmt(fl, s.value), s.guards[-1].text()))
+        if len(single) != 1:
+            why.append('no separate return for a single fill gas: the general formula divides by 1 + sum(ratio) while '
+                       'zip(fill_gases[1:], ratio) pairs no ratio at all, and the constructor accepts (and defaults to) '
+                       'a non-empty ratio with one fill gas, so the fills no longer add up to the remainder')
+        else:
+            s = single[0]
+            if not fl.tab.equal(s.guards[-1].rf, spec(fl, 'len(self._fill_gases) == 1')) or \
+                    not fl.tab.equal(s.value, fl.tab.atom('tuple', (pe['rem'],))):
+                why.append('single fill gas: %s under %s' % (fmt(fl, s.value), s.guards[-1].text()))
         apps = calls(fl, 'append')
-        main = [e for e in apps if not e.loops]
         oth = [e for e in apps if e.loops]
-        m = one(main, 'main append')
         want_main = spec(fl, 'rem/(1 + sum(self._fill_ratio, axis=0))', pe)
-        if not fl.tab.equal(m.args[0], want_main):
-            why.append('main fill = %s' % fmt(fl, m.args[0]))
+        # first element of the general list: a literal [main] or the first append outside the loop
+        lit = [e for e in fl.of('assign') if not e.loops and atom_of(fl, unalloc(fl, e.value)) is not None and
+               atom_of(fl, unalloc(fl, e.value)).head == 'tuple' and len(atom_of(fl, unalloc(fl, e.value)).args) == 1]
+        main = [e for e in apps if not e.loops]
+        if len(lit) + len(main) != 1:
+            raise AnalysisError('expected one main-gas element, found %d' % (len(lit) + len(main)))
+        if lit:
+            m = lit[0]
+            mval = atom_of(fl, unalloc(fl, m.value)).args[0]
+            mlist = m.name
+        else:
+            m = main[0]
+            mval = m.args[0]
+            mlist = unparse(m.node.func.value)
+        if not fl.tab.equal(mval, want_main):
+            why.append('main fill = %s' % fmt(fl, mval))
         o = one(oth, 'append in loop')
         lp = o.loops[0]
         if lp.kind != 'zip' or not (fl.tab.equal(lp.iter_rf[0], spec(fl, 'self._fill_gases[1:]')) and
@@ -210,7 +233,7 @@ def run(ix, R):
                 why.append('other fill = %s' % fmt(fl, o.args[0]))
         if fl.events.index(m) > fl.events.index(o):
             why.append('main gas is not first')
-        if unparse(m.node.func.value) != unparse(o.node.func.value):
+        if mlist != unparse(o.node.func.value):
             why.append('appends go to different lists')
         R.check('2.fill', 'ALG', site,
                 'main = remainder/(1 + sum ratios), others = ratio_i * main paired by zip(fill_gases[1:], ratio), '
@@ -458,6 +481,8 @@ MUTANTS = [
     ('valid-all', TC, 'validity = np.any(total_mix > 1.0)', 'validity = np.all(total_mix > 1.0)', '1.valid'),
     ('valid-noraise', TC, "            self.error('Greater than 1.0 chemistry profile detected')\n            raise InvalidChemistryException", "            self.error('Greater than 1.0 chemistry profile detected')", '1.valid'),
     ('valid-valueerror', TC, "            self.error('Greater than 1.0 chemistry profile detected')\n            raise InvalidChemistryException", "            self.error('Greater than 1.0 chemistry profile detected')\n            raise ValueError", '1.valid'),
+    ('seed-C10B-no-single', TC, "        if len(self._fill_gases) == 1:\n            return [mixratio_remainder]\n        else:", "        if len(self._fill_gases) == 0:\n            return [mixratio_remainder]\n        else:", '2.fill'),
+    ('seed-C10A-mass-memo', AC, '            mix_profile = self.mixProfile\n', '            mix_profile = self.mixProfile\n            if self._active is None:\n                self._active = [self.get_molecular_mass(g) for g in self.gases]\n', 'M.memo'),
     ('fill-main', TC, 'main_molecule = mixratio_remainder * (1 / (1 + sum(self._fill_ratio)))', 'main_molecule = mixratio_remainder * (1 / sum(self._fill_ratio))', '2.fill'),
     ('fill-pairing', TC, 'for molecule, ratio in zip(self._fill_gases[1:], self._fill_ratio):', 'for molecule, ratio in zip(self._fill_gases, self._fill_ratio):', '2.fill'),
     ('concat-order', TC, 'mix_profile = self.fill_atmosphere(mixratio_remainder) + mix_profile', 'mix_profile = mix_profile + self.fill_atmosphere(mixratio_remainder)', '3.concat'),
